@@ -297,7 +297,10 @@ class C05(DimwiseCheck):
                 cfg["boundary"] = all(bd for _, bd in cfg["mixed"])
             if cfg["lmin"] == cfg["lmax"]:
                 cfg["automatic"] = False   # automatic decision at lmin == lmax raises (known finding of C07), not this property's subject
-            cfg["max_leaves"] = 10 ** 6
+            # the point limits of the schedule bound the size; the leaf cap only cuts histories whose areas multiply while their
+            # distinct points hardly grow (boundary points off, everything refined in every step: minutes per refinement step with
+            # the automatic decision - seen as a timeout in a soak at seed 35) - cut runs are excluded and counted
+            cfg["max_leaves"] = 150 if cfg.get("automatic") else 400
         else:
             cfg = DS.gen_cfg(r, tier)
             cfg["max_intervals"] = 10 ** 6      # the point limits of the schedule bound the size here
